@@ -105,6 +105,21 @@ def rule_sib(ctx, f):
         hexes = [x for x in fmts if re.search(r"\{[^}]*[xX]\}", x)]
         ctx.check(bool(hexes) and all(re.search(r"\{:04X\}", x) for x in hexes), "C19-SIB", "%s#hex-width" % name.split("::")[-1],
                   "codes / UTF-16 words are not written as exactly four hex digits (formats: %s): the reader takes 2 bytes per code" % hexes, b["span"], detail="{:04X}")
+    # the text is written as UTF-16BE code units (what the reader's utf16be_to_string decodes), not as code points
+    wu = f.body("font::write_unicode")
+    if wu is None:
+        ctx.lost("C19-SIB", "font::write_unicode")
+    else:
+        flw = Flow(wu)
+        hexargs = [(bi, t) for bi, t in F.calls(wu) if last_seg(F.callee_name(t)) in ("new_upper_hex", "new_lower_hex")]
+        ctx.floor("C19-SIB", len(hexargs), 1, "hex-formatted values in write_unicode")
+        for bi, t in hexargs:
+            l = F.op_local(t["args"][0])
+            names = {last_seg(a[1]) for a in flw.origins(l, passthrough=PT + ("iter", "next", "into_iter")) if a[0] == "call"} if l is not None else set()
+            ty = " ".join(t.get("targs") or [])
+            ctx.check("encode_utf16" in names and "u16" in ty, "C19-SIB", "write_unicode#utf16-units",
+                      "write_unicode formats a %s that does not come from char::encode_utf16 (origins: %s): text outside the Basic Multilingual Plane is written as one "
+                      "number instead of a surrogate pair and reads back as different text" % (ty or "value", sorted(names)), t["span"], detail="{:04X} of each UTF-16 unit")
     # the reader accepts both range forms: a String arm and an Array arm for the third operand
     forms = set()
     for b in f.with_closures(r["id"]):
